@@ -36,6 +36,7 @@ def o1(tier):
             if want == 'Some' and vname(p.ret) == 'Some':
                 f_ = SM.snap_fields(p.ret.fields[0])
                 ob.prove(p, z3.And(f_['epoch'] == e, SM.id_bv(f_['applied_commit_id']) == c), 'O1/components', 'the parsed snapshot does not carry the epoch and commit id encoded in the name')
+                ob.prove(p, f_['applied_commit_ts'] == 0, 'O1/fabricated-timestamp', 'the parsed snapshot carries a commit timestamp although none is persisted (anything but the 0 marker is fabricated)')
                 ob.require(isinstance(f_['snapshot_name'], StrV) and f_['snapshot_name'].sym is name.sym, 'O1/name-kept', 'parsed snapshot does not keep its stored name', p)
     ob.r.bounds = {'well-formed names': 'all u64 epochs, all 256-bit ids (term model)', 'malformed names': '5 concrete shapes'}
     ob.r.assumptions += SM.ASSUMPTIONS + ['hex never contains "_" and u64 Display/parse round-trips (library facts)']
@@ -68,7 +69,11 @@ def o2(tier):
             for pa in h.better(st, mgr_a, GID, ce, ct, cc):
                 for pb in h.better(pa.st, mgr_b, GID, ce, ct, cc):
                     total += 1
-                    ok = ob.eng.prove(pb, pa.ret == pb.ret)[0]
+                    if not ob.eng.prove(pb, z3.Implies(pb.ret, pa.ret))[0]:
+                        ob._fail('O2/hydrated-manager-invents-better-candidate',
+                                 'after a restart is_better_candidate answers TRUE where the pre-restart manager answers false: a commit that lost the race before the restart now triggers a rollback '
+                                 '(the hydrated snapshot carries a fabricated applied-commit timestamp)', pb, None)
+                    ok = ob.eng.prove(pb, z3.Implies(pa.ret, pb.ret))[0]
                     if not ok:
                         ob._fail('O2/hydrated-snapshot-has-no-timestamp',
                                  'after a restart the snapshot manager no longer recognises a better commit: hydrated snapshots carry applied_commit_ts = 0 (the timestamp is not persisted), '
